@@ -39,7 +39,7 @@ var (
 	errNilSliceElement  = errors.New("null element for slice")
 	optionsCache        = make(map[string]optionsCacheValue)
 	cacheLock           sync.RWMutex
-	structRequiredCache = make(map[reflect.Type]requiredCacheValue)
+	structRequiredCache = make(map[requiredCacheKey]requiredCacheValue)
 	structCacheLock     sync.RWMutex
 )
 
@@ -48,6 +48,13 @@ type (
 		key     string
 		options *fieldOptions
 		err     error
+	}
+
+	// requiredCacheKey identifies a struct type as seen through one tag key,
+	// the options of the fields differ from tag key to tag key.
+	requiredCacheKey struct {
+		tag string
+		tp  reflect.Type
 	}
 
 	requiredCacheValue struct {
@@ -524,8 +531,9 @@ func setValueFromString(kind reflect.Kind, value reflect.Value, str string) erro
 }
 
 func structValueRequired(tag string, tp reflect.Type) (bool, error) {
+	key := requiredCacheKey{tag: tag, tp: tp}
 	structCacheLock.RLock()
-	val, ok := structRequiredCache[tp]
+	val, ok := structRequiredCache[key]
 	structCacheLock.RUnlock()
 	if ok {
 		return val.required, val.err
@@ -533,7 +541,7 @@ func structValueRequired(tag string, tp reflect.Type) (bool, error) {
 
 	required, err := implicitValueRequiredStruct(tag, tp)
 	structCacheLock.Lock()
-	structRequiredCache[tp] = requiredCacheValue{
+	structRequiredCache[key] = requiredCacheValue{
 		required: required,
 		err:      err,
 	}
